@@ -124,6 +124,8 @@ FLOW_SCRIPTS = {
     "tuple-types": "while True:\n    a, b = 1, 2.5\n    c, d = 'x', True\n    a, b = a + 1, b * 2\n",
     "same-local-name-branch-then-loop": "def first(a):\n    if a > 0:\n        level = 1\n    else:\n        level = 2\n    return level\ndef ramp(n):\n    for i in range(n):\n        level = i * 0.5\n    return level\ndef climb(n):\n    k = 0\n    while k < n:\n        level = 'up'\n        k = k + 1\n    return level\nwhile True:\n    p = first(1) + first(0)\n    q = ramp(3)\n    s = climb(2)\n",
     "annotated-parameter-other-argument": "def dim(level: int):\n    return level * 2\ndef tag(v: float, n: int):\n    w = v\n    return w + n\nwhile True:\n    a = dim(2)\n    b = dim(0.75)\n    c = tag(1, 2)\n    d = tag(0.5, 2)\n",
+    "parameter-widened-in-body": "def grow(p):\n    p = p * 1.5\n    return p\ndef bump(q):\n    q += 0.5\n    return q\ndef tag(s):\n    s = 'a' + s\n    return s\nwhile True:\n    x = grow(3)\n    y = bump(2)\n    w = tag('k')\n",
+    "parameter-narrowed-in-body": "def half(v):\n    w = v\n    v = 1\n    return w + v\ndef swap(a, b):\n    a, b = b, a\n    return a\ndef narrow(v):\n    v = 3\n    return v\nwhile True:\n    x = half(0.5)\n    z = swap(1, 2.5)\n    y = narrow(2.5)\n",
     "parameter-reassigned": "def widen(v):\n    w = v\n    w = w + 1\n    return w\nwhile True:\n    a = widen(2)\n    b = widen(2.5)\n",
 }
 
@@ -166,10 +168,14 @@ def rule_flow_scripts(r, pm):
             r.check(got == {want}, f"types[{label}]/{name}", (pm, pf), f"script `{label}`: `{name}` holds {want} values in Python; the transpiler declares it {sorted(got) if got else 'nowhere'}", sample=f"{label}: {name} -> {want}")
         for key, sc in sorted((k, v) for k, v in oracle.items() if k != "<module>"):
             fname, sig = key
-            variants = [f for f in prog.functions if f.name == fname and tuple(t for _n, t in f.params) == tuple(sig)]
+            # the variant serving this call: its parameters are declared with the type that holds everything the parameter
+            # holds during the call (the argument, and whatever the body assigns to the parameter later)
+            pnames = [n for n, _t in next((f.params for f in prog.functions if f.name == fname), [])]
+            want_params = tuple(pytypes.var_ctype(sc["vars"].get(pn, set())) if sc["vars"].get(pn) else "?" for pn in pnames)
+            variants = [f for f in prog.functions if f.name == fname and tuple(t for _n, t in f.params) == want_params]
             if len(variants) != 1:
                 have = [tuple(t for _n, t in f.params) for f in prog.functions if f.name == fname]
-                r.fail(f"types[{label}]/{fname}{list(sig)}/variant", (pm, pf), f"script `{label}`: `{fname}` is called with {list(sig)}; the transpiler emits variants {have}: the call would convert its arguments")
+                r.fail(f"types[{label}]/{fname}{list(sig)}/variant", (pm, pf), f"script `{label}`: `{fname}` is called with {list(sig)} and its parameters hold {list(want_params)} values during the call; the transpiler emits variants {have}: an argument would be converted to a narrower parameter")
                 continue
             f = variants[0]
             want_ret = pytypes.ctype_of(sc["returns"]) if sc["returns"] else "void"
